@@ -1,0 +1,19 @@
+//go:build verif
+
+package proxy
+
+import v1 "github.com/fatedier/frp/pkg/config/v1"
+
+// VerifC15TCPPorts returns, for every registered tcp proxy, its name and the remote port of the
+// configuration it was registered with (the content the server acted on).
+func (pm *Manager) VerifC15TCPPorts() map[string]int {
+	pm.mu.RLock()
+	defer pm.mu.RUnlock()
+	out := map[string]int{}
+	for n, p := range pm.pxys {
+		if c, ok := p.GetConfigurer().(*v1.TCPProxyConfig); ok {
+			out[n] = c.RemotePort
+		}
+	}
+	return out
+}
